@@ -289,3 +289,151 @@ def _strip(o):
 
 def run_cases(payload):
     return [run_case(c) for c in payload["cases"]]
+
+
+# ======================================================================================================================
+# dimension-record closure cases (wave 4b): which rows of which dimension-element tables reach the target.
+#   source description: {"dets": [d], "vsys": [s], "exps": [e], "visits": [v], "vdef": [[v, e]], "vsm": [[v, s]],
+#                        "vdr": [[v, d]], "dsets": [[n, kind, a, b]]}   kind 0 {visit a, detector b} 1 {visit a}
+#                        2 {exposure a} 3 {detector a};   physical_filter of a visit / exposure = id % 2, day_obs 1,
+#                        group of exposure e = "g<e>", one instrument "Cam"
+#   target description: {"dets": [...], "vsys": [...], "exps": [...], "visits": [...], "vsm": [[v, s]]} (pre-populated rows)
+#   op: 0 export + import_, 1 transfer_from(transfer_dimensions=True), 2 transfer_dimension_records_from
+#   rows: [element code, key1, key2] -- codes as in coq/Model/TransferDims.v
+DIM_ELEMENTS = {1: "instrument", 2: "day_obs", 3: "detector", 4: "group", 5: "physical_filter", 6: "visit_system",
+                7: "exposure", 8: "visit", 9: "visit_definition", 10: "visit_detector_region",
+                11: "visit_system_membership"}
+DIM_TYPES = {0: ("xvd", ["instrument", "visit", "detector"]), 1: ("xv", ["instrument", "visit"]),
+             2: ("xe", ["instrument", "exposure"]), 3: ("xd", ["instrument", "detector"])}
+
+
+def _box(lon, lat, d):
+    from lsst.sphgeom import ConvexPolygon, LonLat, UnitVector3d
+    pts = [(lon - d, lat - d), (lon + d, lat - d), (lon + d, lat + d), (lon - d, lat + d)]
+    return ConvexPolygon([UnitVector3d(LonLat.fromDegrees(a, b)) for a, b in pts])
+
+
+def _dim_build(repo, st):
+    r = repo.reg
+    r.insertDimensionData("instrument", {"name": "Cam", "visit_max": 1000, "exposure_max": 1000, "detector_max": 10,
+                                         "class_name": "x.Cam"})
+    need_f = {x % 2 for x in list(st.get("exps", [])) + list(st.get("visits", []))}
+    for f in sorted(need_f):
+        r.insertDimensionData("physical_filter", {"instrument": "Cam", "name": f"f{f}", "band": "r"})
+    if st.get("exps") or st.get("visits"):
+        r.insertDimensionData("day_obs", {"instrument": "Cam", "id": 1})
+    for d in st.get("dets", []):
+        r.insertDimensionData("detector", {"instrument": "Cam", "id": d, "full_name": f"D{d}"})
+    for s in st.get("vsys", []):
+        r.insertDimensionData("visit_system", {"instrument": "Cam", "id": s, "name": f"vs{s}"})
+    for e in st.get("exps", []):
+        r.insertDimensionData("group", {"instrument": "Cam", "name": f"g{e}"})
+        r.insertDimensionData("exposure", {"instrument": "Cam", "id": e, "obs_id": f"o{e}", "physical_filter": f"f{e % 2}",
+                                           "group": f"g{e}", "day_obs": 1})
+    for v in st.get("visits", []):
+        r.insertDimensionData("visit", {"instrument": "Cam", "id": v, "name": f"v{v}", "physical_filter": f"f{v % 2}",
+                                        "day_obs": 1, "region": _box(v, 0, 1.0)})
+    for v, e in st.get("vdef", []):
+        r.insertDimensionData("visit_definition", {"instrument": "Cam", "visit": v, "exposure": e})
+    for v, s in st.get("vsm", []):
+        r.insertDimensionData("visit_system_membership", {"instrument": "Cam", "visit": v, "visit_system": s})
+    for v, d in st.get("vdr", []):
+        r.insertDimensionData("visit_detector_region", {"instrument": "Cam", "visit": v, "detector": d,
+                                                        "region": _box(v + d * 0.3, 0, 0.25)})
+
+
+def _dim_ref(repo, n, kind, a, b):
+    from lsst.daf.butler import DataCoordinate, DatasetRef, DatasetType
+    name, dims = DIM_TYPES[kind]
+    dt = DatasetType(name, dimensions=dims, storageClass="StructuredDataDict", universe=repo.butler.dimensions)
+    did_ = {"instrument": "Cam"}
+    if kind == 0:
+        did_.update(visit=a, detector=b)
+    elif kind == 1:
+        did_.update(visit=a)
+    elif kind == 2:
+        did_.update(exposure=a)
+    else:
+        did_.update(detector=a)
+    return DatasetRef(dt, DataCoordinate.standardize(did_, dimensions=dt.dimensions), run="xr", id=uid(n))
+
+
+def _dim_observe(repo, ids):
+    reg = repo.reg
+    reg.refresh()
+    rows = []
+    for code, el in DIM_ELEMENTS.items():
+        for rec in reg.queryDimensionRecords(el):
+            if code == 1:
+                rows.append([1, 0 if rec.name == "Cam" else 99, 0])
+            elif code in (2, 3, 6, 7, 8):
+                rows.append([code, int(rec.id), 0])
+            elif code in (4, 5):
+                rows.append([code, int(rec.name[1:]), 0])
+            elif code == 9:
+                rows.append([9, int(rec.visit), int(rec.exposure)])
+            elif code == 10:
+                rows.append([10, int(rec.visit), int(rec.detector)])
+            else:
+                rows.append([11, int(rec.visit), int(rec.visit_system)])
+    have = []
+    for n in ids:
+        try:
+            if reg.getDataset(uid(n)) is not None:
+                have.append(n)
+        except Exception:  # noqa: BLE001
+            pass
+    return {"rows": sorted(rows), "dsets": sorted(have)}
+
+
+def run_dim_case(case):
+    from lsst.daf.butler import CollectionType
+    src, tgt = Repo("c19ds"), Repo("c19dt")
+    d = None
+    res = {}
+    try:
+        try:
+            _dim_build(src, case["src"])
+            src.reg.registerCollection("xr", CollectionType.RUN)
+            for n, k, a, b in case["src"]["dsets"]:
+                ref = _dim_ref(src, n, k, a, b)
+                src.reg.registerDatasetType(ref.datasetType)
+                src.butler.put({"v": n}, ref.expanded(src.reg.expandDataId(ref.dataId)))
+            if case.get("tgt"):
+                _dim_build(tgt, case["tgt"])
+            res["build"] = "ok"
+        except Exception as e:  # noqa: BLE001
+            res["build"] = f"{type(e).__name__}: {str(e)[:400]}"
+            return res
+        ids = [x[0] for x in case["src"]["dsets"]]
+        res["src0"], res["tgt0"] = _dim_observe(src, ids), _dim_observe(tgt, ids)
+        defs = {n: (k, a, b) for n, k, a, b in case["src"]["dsets"]}
+        refs = [_dim_ref(src, n, *defs[n]) for n in case["sel"]]
+        op = case["op"]
+        if op == 0:
+            d = fixture.new_root("c19dx")
+
+            def go():
+                with src.butler.export(directory=d, filename="export.yaml", transfer="copy") as ex:
+                    ex.saveDatasets(refs)
+                tgt.butler.import_(directory=d, filename="export.yaml", transfer="copy")
+        elif op == 1:
+            def go():
+                tgt.butler.transfer_from(src.butler, refs, transfer="copy", register_dataset_types=True,
+                                         transfer_dimensions=True)
+        else:
+            def go():
+                tgt.butler.transfer_dimension_records_from(src.butler, refs)
+        res["out"], res["msg"] = _outcome(go)
+        res["tgt1"] = _dim_observe(tgt, ids)
+        res["src_same"] = _dim_observe(src, ids) == res["src0"]
+        return res
+    finally:
+        src.close()
+        tgt.close()
+        if d:
+            shutil.rmtree(d, ignore_errors=True)
+
+
+def run_dim_cases(payload):
+    return [run_dim_case(c) for c in payload["cases"]]
